@@ -38,3 +38,356 @@ LEAVES += [
          kind='assign', target='dof', nth=0, count=2,
          params={'evaluations_shape_m1': 'Int'}, ret='Int'),
 ]
+
+
+# =====================================================================================
+# Round 3: more leaves.
+#
+# Native py2lean leaves (opaque calls for the Student-t CDF / quantile, the square root, the
+# counting reductions) and *derived* leaves: for array expressions and call sites outside the
+# scalar subset of py2lean this module first derives, from the current source text (Python
+# `ast`), a tiny scalar Python function and writes it to `harness/leaves/_C06_derived.py`;
+# py2lean then translates that function as usual.  Every derivation fails closed: an
+# unexpected shape of the anchor yields a call of `__underivable__`, which py2lean reports as
+# an untranslatable leaf (= broken obligation).  Nothing is cached.
+#
+# Derivations
+#   clamp under the square root     t = x / np.sqrt(np.maximum(v, np.finfo(float).eps))
+#                                   -> np.maximum(v, eps)     (t_test_0, t_tests, t_test_nc)
+#                                   np.sqrt(np.maximum(model_var, 0)) -> np.maximum(model_var, 0)
+#                                   (Result.get_sem, util get_errorbars sem branch and std_eval)
+#   Result.get_ci                   ci = [a, b] (t branch) -> a, b with tdist.ppf(prop_cut, self.dof) -> q
+#   bootstrap pair proportion       proportions[i_model, j_model] = np.sum(<) / (N - np.sum(==))
+#                                   -> lt / (n - eq)    (the comparison operators are part of
+#                                   the matched text: `<=` instead of `<` is underivable)
+#   call sites                      which expression each wrapper passes as the callee's `dof`,
+#                                   `variances`, `noise_ceil` parameter (callee default when the
+#                                   argument is not passed), for all_tests / pair_tests / zero_tests /
+#                                   nc_tests and Result.test_all / test_pairwise / test_zero / test_noise
+#   dispatch on test_type           the callee each wrapper reaches per test_type, as a code
+# =====================================================================================
+import ast
+import os
+
+_SRC = os.environ.get('RSA_REPO_SRC', '/repo/src/rsatoolbox')
+_HERE = os.path.dirname(os.path.abspath(__file__))
+DERIVED = os.path.join(_HERE, '_C06_derived.py')
+_IU = 'util/inference_util.py'
+_RES = 'inference/result.py'
+
+
+class Underivable(Exception):
+    pass
+
+
+_TREES = {}
+
+
+def _tree(path):
+    if path not in _TREES:
+        _TREES[path] = ast.parse(open(os.path.join(_SRC, path)).read())
+    return _TREES[path]
+
+
+def _func(path, name):
+    for node in ast.walk(_tree(path)):
+        if isinstance(node, ast.FunctionDef) and node.name == name:
+            return node
+    raise Underivable(f'{path}: function {name} not found')
+
+
+def _assigns(fn, target):
+    hits = [n for n in ast.walk(fn) if isinstance(n, ast.Assign) and len(n.targets) == 1
+            and ast.unparse(n.targets[0]) == target]
+    hits.sort(key=lambda n: n.lineno)
+    return hits
+
+
+def _the_assign(fn, target, nth, count):
+    hits = _assigns(fn, target)
+    if len(hits) != count:
+        raise Underivable(f'expected {count} assignments to {target} in {fn.name}, found {len(hits)}')
+    return hits[nth].value
+
+
+class _Subst(ast.NodeTransformer):
+    def __init__(self, subs):
+        self.subs, self.used = subs, set()
+
+    def visit(self, node):
+        if isinstance(node, ast.expr):
+            t = ast.unparse(node)
+            if t in self.subs:
+                self.used.add(t)
+                v = self.subs[t]
+                return ast.Constant(value=v) if isinstance(v, int) else ast.Name(id=v, ctx=ast.Load())
+        return self.generic_visit(node)
+
+
+def _substituted(expr, subs, optional=()):
+    tr = _Subst(subs)
+    new = tr.visit(ast.parse(ast.unparse(expr), mode='eval').body)
+    missing = [k for k in subs if k not in tr.used and k not in optional]
+    if missing:
+        raise Underivable(f'sub-expression(s) {missing} not found in `{ast.unparse(expr)}`')
+    return ast.unparse(ast.fix_missing_locations(new))
+
+
+def _sqrt_arg(expr):
+    """the argument of the single np.sqrt(...) call inside `expr`"""
+    calls = [n for n in ast.walk(expr) if isinstance(n, ast.Call) and ast.unparse(n.func) == 'np.sqrt']
+    if len(calls) != 1 or len(calls[0].args) != 1:
+        raise Underivable(f'expected one np.sqrt(.) in `{ast.unparse(expr)}`')
+    return calls[0].args[0]
+
+
+_EPS = 'np.finfo(float).eps'
+
+
+def _ret(fn):
+    rets = [n for n in fn.body if isinstance(n, ast.Return)]
+    if len(rets) != 1:
+        raise Underivable(f'expected one top-level return in {fn.name}')
+    return rets[0].value
+
+
+def _if_branch(fn, test_type):
+    """body of the `if/elif test_type == '<test_type>'` branch of a wrapper"""
+    def walk(node):
+        if not isinstance(node, ast.If):
+            return None
+        t = node.test
+        if isinstance(t, ast.Compare) and ast.unparse(t.left) == 'test_type' and len(t.ops) == 1 \
+                and isinstance(t.ops[0], ast.Eq) and isinstance(t.comparators[0], ast.Constant) \
+                and t.comparators[0].value == test_type:
+            return node.body
+        if len(node.orelse) == 1:
+            return walk(node.orelse[0])
+        return None
+    for node in fn.body:
+        b = walk(node)
+        if b is not None:
+            return b
+    raise Underivable(f"{fn.name}: no branch test_type == '{test_type}'")
+
+
+def _call_in(stmts, target):
+    """the call assigned to `target` (possibly as one element of a tuple) within `stmts`"""
+    for s in stmts:
+        for n in ast.walk(s):
+            if isinstance(n, ast.Assign) and len(n.targets) == 1 and ast.unparse(n.targets[0]) == target:
+                return n.value
+    raise Underivable(f'no assignment to {target}')
+
+
+def _bound(call, callee_path, callee, param):
+    """source text of the expression bound to `param` of `callee` at `call` (its default when
+    the argument is not passed)"""
+    if not (isinstance(call, ast.Call) and ast.unparse(call.func) == callee):
+        raise Underivable(f'`{ast.unparse(call)}` is not a call of {callee}')
+    fn = _func(callee_path, callee)
+    names = [a.arg for a in fn.args.args]
+    defaults = dict(zip(names[len(names) - len(fn.args.defaults):], fn.args.defaults))
+    if any(isinstance(a, ast.Starred) for a in call.args) or any(k.arg is None for k in call.keywords):
+        raise Underivable('star arguments')
+    got = dict(zip(names, call.args))
+    for k in call.keywords:
+        got[k.arg] = k.value
+    if param in got:
+        return got[param]
+    if param in defaults:
+        return defaults[param]
+    raise Underivable(f'{callee}: parameter {param} neither passed nor defaulted')
+
+
+def _ret_call(fn):
+    """the single call a Result accessor returns / unpacks"""
+    calls = [n for n in ast.walk(fn) if isinstance(n, ast.Call)
+             and ast.unparse(n.func) in ('all_tests', 'pair_tests', 'zero_tests', 'nc_tests')]
+    if len(calls) != 1:
+        raise Underivable(f'{fn.name}: expected exactly one wrapper call')
+    return calls[0]
+
+
+_CALLEE_CODE = {'t_tests': 10, 't_test_0': 11, 't_test_nc': 12, 'bootstrap_pair_tests': 20,
+                'np.minimum': 21, 'ranksum_pair_test': 30, 'ranksum_value_test': 31}
+_TT = ['t-test', 'bootstrap', 'ranksum']
+
+
+def _derive():
+    out = ['# DERIVED by harness/leaves/C06.py from the source tree under check - do not edit', '']
+    specs = []
+
+    def emit(lean_name, params, body_fn, ret='A'):
+        pyname = 'd_' + lean_name
+        try:
+            body = body_fn()
+        except Exception as exc:  # noqa: BLE001  (fail closed)
+            body = '__underivable__(' + repr(str(exc)) + ')'
+        out.append(f'def {pyname}({", ".join(params)}):')
+        out.append(f'    return {body}')
+        out.append('')
+        specs.append(dict(name=lean_name, file=DERIVED, func=pyname, kind='func',
+                          params=dict(params), ret=ret))
+
+    A = 'A'
+    # ---- clamps under the square roots
+    emit('tClampZero', {'variances': A, 'eps': A}, lambda: _substituted(
+        _sqrt_arg(_the_assign(_func(_IU, 't_test_0'), 't', 0, 1)), {_EPS: 'eps'}))
+    emit('tClampPair', {'variances': A, 'eps': A}, lambda: _substituted(
+        _sqrt_arg(_the_assign(_func(_IU, 't_tests'), 't', 0, 2)), {_EPS: 'eps'}))
+    emit('tClampNc', {'variances_i': A, 'eps': A}, lambda: _substituted(
+        _sqrt_arg(_the_assign(_func(_IU, 't_test_nc'), 't', 0, 1)),
+        {_EPS: 'eps', 'variances[i]': 'variances_i'}))
+    emit('semClamp', {'model_var': A}, lambda: _substituted(
+        _sqrt_arg(_ret([n for n in [_func(_RES, 'get_sem')]][0])), {'self.model_var': 'model_var'}))
+    emit('utilSemClampLow', {'model_var': A}, lambda: ast.unparse(
+        _sqrt_arg(_the_assign(_func(_IU, 'get_errorbars'), 'errorbar_low', 0, 3))))
+    emit('utilSemClampHigh', {'model_var': A}, lambda: ast.unparse(
+        _sqrt_arg(_the_assign(_func(_IU, 'get_errorbars'), 'errorbar_high', 0, 3))))
+    emit('utilStdClamp', {'model_var': A}, lambda: ast.unparse(
+        _sqrt_arg(_the_assign(_func(_IU, 'get_errorbars'), 'std_eval', 0, 1))))
+
+    # ---- Result.get_ci, t branch: ci = [low, high]
+    def ci_elt(k):
+        v = _the_assign(_func(_RES, 'get_ci'), 'ci', 1, 2)
+        if not (isinstance(v, ast.List) and len(v.elts) == 2):
+            raise Underivable('get_ci: the t branch does not build a two-element list')
+        return _substituted(v.elts[k], {'tdist.ppf(prop_cut, self.dof)': 'q'})
+    emit('ciLow', {'means': A, 'std_eval': A, 'q': A}, lambda: ci_elt(0))
+    emit('ciHigh', {'means': A, 'std_eval': A, 'q': A}, lambda: ci_elt(1))
+
+    # ---- bootstrap pair proportion
+    def boot_prop():
+        fn = _func(_IU, 'bootstrap_pair_tests')
+        v = _the_assign(fn, 'proportions[i_model, j_model]', 0, 1)
+        return _substituted(v, {
+            'np.sum(evaluations[:, i_model] < evaluations[:, j_model])': 'lt',
+            'np.sum(evaluations[:, i_model] == evaluations[:, j_model])': 'eq',
+            'evaluations.shape[0]': 'n'})
+    emit('bootProp', {'lt': A, 'eq': A, 'n': A}, boot_prop)
+
+    # ---- call sites: what is passed as dof / variances / noise_ceil
+    # codes: 0 model_var, 1 diff_var, 2 noise_ceil_var[:, 0] (lower), 3 noise_ceil_var[:, 1] (upper),
+    # 4 the whole noise_ceil_var; ceiling value: 0 mean lower bound, 1 mean upper bound
+    var_subs = {'model_var': 0, 'diff_var': 1, 'noise_ceil_var[:, 0]': 2,
+                'noise_ceil_var[:, 1]': 3, 'noise_ceil_var': 4}
+    VP = {}
+    nc_subs = {'np.nanmean(noise_ceil[0])': 0, 'np.nanmean(noise_ceil[1])': 1}
+
+    def code_only(text):
+        if not text.strip().isdigit():
+            raise Underivable(f'`{text}` is not one of the expected expressions')
+        return text
+    for wrapper, fam, target, callee in (
+            ('all_tests', 'Pair', 'p_pairwise', 't_tests'), ('all_tests', 'Zero', 'p_zero', 't_test_0'),
+            ('all_tests', 'Nc', 'p_noise', 't_test_nc'), ('pair_tests', 'Pair', 'p_pairwise', 't_tests'),
+            ('zero_tests', 'Zero', 'p_zero', 't_test_0'), ('nc_tests', 'Nc', 'p_noise', 't_test_nc')):
+        short = {'all_tests': 'all', 'pair_tests': 'single', 'zero_tests': 'single', 'nc_tests': 'single'}[wrapper]
+
+        def site(wrapper=wrapper, target=target):
+            return _call_in(_if_branch(_func(_IU, wrapper), 't-test'), target)
+        emit(f'{short}{fam}Dof', {'dof': 'Int'}, lambda site=site, callee=callee: _substituted(
+            _bound(site(), _IU, callee, 'dof'), {}, ()), ret='Int')
+        emit(f'{short}{fam}Var', VP, lambda site=site, callee=callee: code_only(_substituted(
+            _bound(site(), _IU, callee, 'variances'), var_subs, optional=var_subs)), ret='Nat')
+        if fam == 'Nc':
+            emit(f'{short}NcCeil', {},
+                 lambda site=site, callee=callee: code_only(_substituted(
+                     _bound(site(), _IU, callee, 'noise_ceil'), nc_subs, optional=nc_subs)), ret='Nat')
+    for meth, wrapper, fam in (('test_all', 'all_tests', 'All'), ('test_pairwise', 'pair_tests', 'Pair'),
+                               ('test_zero', 'zero_tests', 'Zero'), ('test_noise', 'nc_tests', 'Nc')):
+        def rsite(meth=meth):
+            return _ret_call(_func(_RES, meth))
+        emit(f'result{fam}Dof', {'self_dof': 'Int'}, lambda rsite=rsite, wrapper=wrapper: _substituted(
+            _bound(rsite(), _IU, wrapper, 'dof'), {'self.dof': 'self_dof'}, optional=('self.dof',)), ret='Int')
+    rv = {'self.model_var': 0, 'self.diff_var': 1, 'self.noise_ceil_var': 4}
+    RP = {}
+    for meth, wrapper, param, nm in (('test_all', 'all_tests', 'model_var', 'resultAllModelVar'),
+                                     ('test_all', 'all_tests', 'diff_var', 'resultAllDiffVar'),
+                                     ('test_all', 'all_tests', 'noise_ceil_var', 'resultAllNcVar'),
+                                     ('test_pairwise', 'pair_tests', 'diff_var', 'resultPairVar'),
+                                     ('test_zero', 'zero_tests', 'model_var', 'resultZeroVar'),
+                                     ('test_noise', 'nc_tests', 'noise_ceil_var', 'resultNcVar')):
+        emit(nm, RP, lambda meth=meth, wrapper=wrapper, param=param: code_only(_substituted(
+            _bound(_ret_call(_func(_RES, meth)), _IU, wrapper, param), rv, optional=rv)), ret='Nat')
+
+    # ---- dispatch on test_type: code of the callee per (wrapper, family, test_type)
+    def dispatch(wrapper, target):
+        fn = _func(_IU, wrapper)
+        parts = []
+        for k, tt in enumerate(_TT):
+            v = _call_in(_if_branch(fn, tt), target)
+            if not isinstance(v, ast.Call):
+                raise Underivable(f'{wrapper}/{tt}: {target} is not assigned a call')
+            name = ast.unparse(v.func)
+            if name not in _CALLEE_CODE:
+                raise Underivable(f'{wrapper}/{tt}: unexpected callee {name}')
+            parts.append((k, _CALLEE_CODE[name]))
+        # a final else must raise (unknown test types are rejected)
+        return ' if tt == 0 else '.join([str(parts[0][1]), f'({parts[1][1]} if tt == 1 else ({parts[2][1]} if tt == 2 else 0))'])
+    for wrapper, short, fam, target in (('all_tests', 'all', 'Pair', 'p_pairwise'), ('all_tests', 'all', 'Zero', 'p_zero'),
+                                        ('all_tests', 'all', 'Nc', 'p_noise'), ('pair_tests', 'single', 'Pair', 'p_pairwise'),
+                                        ('zero_tests', 'single', 'Zero', 'p_zero'), ('nc_tests', 'single', 'Nc', 'p_noise')):
+        emit(f'{short}{fam}Dispatch', {'tt': 'Nat'}, lambda wrapper=wrapper, target=target: dispatch(wrapper, target),
+             ret='Nat')
+
+    text = '\n'.join(out)
+    if not (os.path.exists(DERIVED) and open(DERIVED).read() == text):
+        with open(DERIVED + '.tmp', 'w') as f:
+            f.write(text)
+        os.replace(DERIVED + '.tmp', DERIVED)
+    return specs
+
+
+_CDF_ABS = {'stats.t.cdf(np.abs(t), dof)': 'cdf_abs_t'}
+_SQ = 'np.sqrt(np.maximum(variances, np.finfo(float).eps))'
+_CNT0 = {'(evaluations <= 0).sum(axis=0)': 'count'}
+_CNTD = {'(diffs <= 0).sum(axis=0)': 'count'}
+_BP = {'count': 'A', 'evaluations_shape_0': 'A'}
+LEAVES += [
+    # one- and two-sided p-value formulas around the (opaque) Student-t CDF
+    dict(name='pOneSided', file=_IU, func='t_test_0', kind='assign', target='p', nth=0, count=1,
+         params={'cdf_t': 'A'}, ret='A', opaque={'stats.t.cdf(t, dof)': 'cdf_t'}),
+    dict(name='pTwoSidedPair', file=_IU, func='t_tests', kind='assign', target='p', nth=0, count=1,
+         params={'cdf_abs_t': 'A'}, ret='A', opaque=_CDF_ABS),
+    dict(name='pTwoSidedNc', file=_IU, func='t_test_nc', kind='assign', target='p_i', nth=0, count=1,
+         params={'cdf_abs_t': 'A'}, ret='A', opaque=_CDF_ABS),
+    # t statistics: quotient by the (opaque) square root of the clamped variance
+    dict(name='tQuotZero', file=_IU, func='t_test_0', kind='assign', target='t', nth=0, count=1,
+         params={'evaluations': 'A', 'sqrt_clamped': 'A'}, ret='A', opaque={_SQ: 'sqrt_clamped'}),
+    dict(name='tQuotPair', file=_IU, func='t_tests', kind='assign', target='t', nth=0, count=2,
+         params={'diffs': 'A', 'sqrt_clamped': 'A'}, ret='A', opaque={_SQ: 'sqrt_clamped'}),
+    dict(name='tQuotNc', file=_IU, func='t_test_nc', kind='assign', target='t', nth=0, count=1,
+         params={'eval_i': 'A', 'noise_ceil': 'A', 'sqrt_clamped': 'A'}, ret='A',
+         opaque={'np.sqrt(np.maximum(variances[i], np.finfo(float).eps))': 'sqrt_clamped'}),
+    # one-sided bootstrap p-values: (count + 1) / N capped at 1, in all four places
+    dict(name='bootZeroAll', file=_IU, func='all_tests', kind='assign', target='p_zero', nth=1, count=3,
+         params=_BP, ret='A', opaque=_CNT0),
+    dict(name='bootNcAll', file=_IU, func='all_tests', kind='assign', target='p_noise', nth=1, count=3,
+         params=_BP, ret='A', opaque=_CNTD),
+    dict(name='bootZeroSingle', file=_IU, func='zero_tests', kind='assign', target='p_zero', nth=1, count=3,
+         params=_BP, ret='A', opaque=_CNT0),
+    dict(name='bootNcSingle', file=_IU, func='nc_tests', kind='assign', target='p_noise', nth=1, count=3,
+         params=_BP, ret='A', opaque=_CNTD),
+    # confidence intervals / error bars
+    dict(name='ciPropCut', file=_RES, func='get_ci', kind='assign', target='prop_cut', nth=0, count=1,
+         params={'ci_percent': 'A'}, ret='A'),
+    dict(name='ebCiDefault', file=_RES, func='get_errorbars', kind='assign', target='ci_percent', nth=0, count=2,
+         params={}, ret='A'),
+    dict(name='ebCiPercent', file=_RES, func='get_errorbars', kind='assign', target='ci_percent', nth=1, count=2,
+         params={'pct': 'A'}, ret='A', opaque={'float(eb_type[2:])': 'pct'}),
+    dict(name='ebLow', file=_RES, func='get_errorbars', kind='assign', target='errorbar_low', nth=1, count=2,
+         params={'means': 'A', 'ci_0': 'A'}, ret='A'),
+    dict(name='ebHigh', file=_RES, func='get_errorbars', kind='assign', target='errorbar_high', nth=1, count=2,
+         params={'means': 'A', 'ci_1': 'A'}, ret='A'),
+    dict(name='utilCiDefault', file=_IU, func='get_errorbars', kind='assign', target='CI_percent', nth=0, count=2,
+         params={}, ret='A'),
+    dict(name='utilPropCut', file=_IU, func='get_errorbars', kind='assign', target='prop_cut', nth=0, count=1,
+         params={'CI_percent': 'A'}, ret='A'),
+    dict(name='utilEbLow', file=_IU, func='get_errorbars', kind='assign', target='errorbar_low', nth=2, count=3,
+         params={'std_eval': 'A', 'q': 'A'}, ret='A', opaque={'tdist.ppf(prop_cut, dof)': 'q'}),
+    dict(name='utilEbHigh', file=_IU, func='get_errorbars', kind='assign', target='errorbar_high', nth=2, count=3,
+         params={'std_eval': 'A', 'q': 'A'}, ret='A', opaque={'tdist.ppf(prop_cut, dof)': 'q'}),
+]
+LEAVES += _derive()
